@@ -41,8 +41,8 @@ pub fn plan(tier: Tier, backend: Backend) -> Plan {
         },
         Tier::Thorough => Plan {
             a_len: 8,
-            a_len_allwidths: 8,
-            b_tokens: 6,
+            a_len_allwidths: if backend == Backend::IrInt || backend == Backend::Inplace { 8 } else { 7 },
+            b_tokens: if backend == Backend::IrInt || backend == Backend::Inplace { 6 } else { 5 },
             s_k: 3,
             s_inner: 1,
             depth: 3,
@@ -50,7 +50,7 @@ pub fn plan(tier: Tier, backend: Backend) -> Plan {
             step_cap: 100_000,
             widths: Width::ALL.to_vec(),
             w_full: true,
-            n_depth: 5,
+            n_depth: if backend == Backend::IrInt { 5 } else { 4 },
         },
     }
 }
